@@ -574,5 +574,10 @@ def gen_trace(rng, check, population, tier='quick'):
     else:
         for _ in range(r.choice((1, 1, 2, 3, 4))):
             conns.append(gen_conn(r, g, population, cfg))
-    return {'world': 'A', 'check': check, 'population': population,
-            'conns': conns}
+    tr = {'world': 'A', 'check': check, 'population': population,
+          'conns': conns}
+    if r.random() < 0.15:
+        tr['debug_log'] = True
+    if population in ('truncsweep', 'bytesweep', 'fieldsweep'):
+        tr['mem_all'] = True   # enumerated faults: measure every decode
+    return tr
